@@ -1,5 +1,6 @@
 """C10 - refreshing link variables in place equals rebuilding the operators."""
 import numpy as np
+from ..common import aeq  # noqa: E402
 
 from .. import scen
 from ..checkers import C10Refresh
@@ -106,7 +107,7 @@ def run_bare(scn):
                 m.sort_indices()
             d = a - b
             err = float(np.max(np.abs(d.data), initial=0.0))
-            same = np.array_equal(a.indptr, b.indptr) and np.array_equal(a.indices, b.indices)
+            same = aeq(a.indptr, b.indptr) and aeq(a.indices, b.indices)
             if err != 0 or not same:
                 V.append(Violation("refresh-vs-rebuild", f"bare history step {i} ({hrec['kind']}): {name} differs from rebuild (max {err:.3g}, same pattern {same})", operator=name, pattern=bool(same)))
         pinned = fixed if scn["fix_psi"] else None
